@@ -103,7 +103,7 @@ def cq_ev(e):
 
 def evaluate(ctx, name, ccases, shard=60):
     terms = ["(%s, %s)" % (hist.cq_list(cq_ev(e) for e in ev), hist.cq_list(ob)) for ev, ob, _ in ccases]
-    defs = {"SM": "spec_accepts"}
+    defs = {"SM": "spec_accepts_strict"}
     if ctx.model_ok:
         defs["MM"] = "model_agrees"
     okc, res, lg = vlib.run_coq_cases(name, hist.HEADER, terms, "hcase", defs, shard=shard)
